@@ -257,7 +257,7 @@ def main (args : List String) : IO Unit := do
   | ["enum", fam, level] =>
     -- quantifier domain of a C01–C05 family: one line per instance, "<assembly text>\t<expected decoding>"
     let out ← IO.getStdout
-    for it in AL.Spec.X86.family fam level.toNat! ++ (if fam == "c02" then AL.Spec.X86.famC02x else []) do
+    for it in AL.Spec.X86.family fam level.toNat! ++ (if fam == "c02" then AL.Spec.X86.famC02x else if fam == "c05" then AL.Spec.X86.famC05x else if fam == "c03" then AL.Spec.X86.famC03x else []) do
       out.putStrLn (it.text ++ "\t" ++ it.want.render)
   | _ =>
     let stdin ← IO.getStdin
